@@ -34,6 +34,9 @@ TOOLS = {
     "sum": lambda: etool({"xs": "int[]"}, {"o": "int"}, "${var t = 0; for (var i = 0; i < inputs.xs.length; i++) { t += inputs.xs[i]; } return {'o': t};}"),
     "len2": lambda: etool({"xs": "int[][]"}, {"o": "int"}, "$({'o': inputs.xs.length})"),
     "odd_null": lambda: etool({"x": "int"}, {"o": "int?"}, "$({'o': inputs.x % 2 == 1 ? null : inputs.x})"),
+    "addk_default": lambda: {"class": "ExpressionTool", "requirements": {"InlineJavascriptRequirement": {}},
+                             "inputs": {"x": {"type": ["null", "int"], "default": 7}, "k": "int"}, "outputs": {"o": "int"},
+                             "expression": "$({'o': inputs.k * 100 + inputs.x})"},
     "aid": lambda: etool({"xs": "int[]"}, {"o": "int[]"}, "$({'o': inputs.xs})"),
     "aid_opt": lambda: etool({"xs": "int?[]"}, {"o": "int?[]"}, "$({'o': inputs.xs})"),
     "iid": lambda: etool({"x": "int"}, {"o": "int"}, "$({'o': inputs.x})"),
@@ -152,6 +155,21 @@ class WfGen:
         tool = rng.choice(["inc", "rng", "odd_null"])
         self.steps[st] = {"run": TOOLS[tool](), "in": {"x": xs[0]}, "scatter": "x", "out": ["o"]}
         self.out(st, "o", {"inc": "int[]", "rng": "int[][]", "odd_null": "int?[]"}[tool])
+
+    def t_scatter_default(self, d):
+        """scatter a tool whose scattered input is optional with a default over an array holding nulls (a null followed by values)"""
+        rng = self.rng
+        vals = [rng.choice([None, None, rng.randint(0, 20)]) for _ in range(rng.randint(2, 6))]
+        if None in vals and vals[-1] is None:
+            vals.append(rng.randint(0, 20))
+        self.add_input("int?[]", vals)
+        xs = self.pool[-1]
+        k = self.ensure("int", d)
+        st = self.fresh("s")
+        self.reqs.add("ScatterFeatureRequirement")
+        self.feats.add("scatter:default-over-nulls")
+        self.steps[st] = {"run": TOOLS["addk_default"](), "in": {"x": xs[0], "k": k[0]}, "scatter": "x", "out": ["o"]}
+        self.out(st, "o", "int[]")
 
     def t_scatter2(self, d):
         rng = self.rng
@@ -292,7 +310,7 @@ class WfGen:
             if as_sub and k in self.job:
                 doc["inputs"][k] = {"type": t, "default": self.job[k]}
             else:
-                doc["inputs"][k] = t
+                doc["inputs"][k] = {"type": t} if isinstance(t, dict) else t
         self._out_types = {}
         for src, t, _ in self.pool:
             if "/" in src:
@@ -311,7 +329,8 @@ def gen_workflow(rng: random.Random, d: str, allow: set, n_steps=None, force=Non
     n = n_steps or rng.randint(1, 6)
     templates = [("simple", g.t_simple)] * 3
     if "scatter" in allow:
-        templates += [("scatter1", g.t_scatter1), ("scatter2", g.t_scatter2), ("scatter2", g.t_scatter2)]
+        templates += [("scatter1", g.t_scatter1), ("scatter2", g.t_scatter2), ("scatter2", g.t_scatter2),
+                      ("scatter_default", g.t_scatter_default)]
     if "when" in allow:
         templates += [("when", g.t_when)]
     if "pickValue" in allow:
